@@ -253,14 +253,20 @@ theorem inv_serviceResponse (reqs : List Req) (servers : List Server) (arrived :
       split
       · exact h
       · split
-        · exact inv_handle reqs servers s _ h hw hps
+        · unfold afterIdle
+          split
+          · exact inv_congr reqs _ _ (inv_handle reqs servers s _ h hw hps) rfl rfl rfl rfl rfl rfl rfl rfl rfl
+          · exact inv_handle reqs servers s _ h hw hps
         · split
           · split
             · split
               · exact inv_handle reqs servers s rp h hw hps
               · exact inv_finish reqs _ none [] true (inv_consume reqs s rp false h hw hps) hw rfl (fun hc => absurd hc (by decide))
             · exact inv_outcome reqs s .stuck h
-          · exact inv_handle reqs servers s rp h hw hps
+          · unfold afterIdle
+            split
+            · exact inv_congr reqs _ _ (inv_handle reqs servers s rp h hw hps) rfl rfl rfl rfl rfl rfl rfl rfl rfl
+            · exact inv_handle reqs servers s rp h hw hps
   · rw [if_pos (by simp [hw])]
     exact h
 
@@ -361,14 +367,20 @@ theorem sec_serviceResponse (w0 : List Sent) (servers : List Server) (arrived : 
     · split
       · exact h
       · split
-        · exact sec_handle w0 servers s _ h
+        · unfold afterIdle
+          split
+          · exact sec_congr w0 _ _ (sec_handle w0 servers s _ h) rfl rfl
+          · exact sec_handle w0 servers s _ h
         · split
           · split
             · split
               · exact sec_handle w0 servers s _ h
               · exact sec_congr w0 s _ h rfl rfl
             · exact sec_congr w0 s _ h rfl rfl
-          · exact sec_handle w0 servers s _ h
+          · unfold afterIdle
+            split
+            · exact sec_congr w0 _ _ (sec_handle w0 servers s _ h) rfl rfl
+            · exact sec_handle w0 servers s _ h
 
 theorem sec_cycle (w0 : List Sent) (servers : List Server) (arrived : Bool) (s : St) (h : SecRel w0 s) :
     SecRel w0 (cycle servers arrived s) := by
